@@ -791,6 +791,53 @@ func ruleUnitClamp(c *Ctx) {
 			}
 		}
 	}
+	// a LoadError's Range handed to a module function (or closure): what do the unsigned conversions of
+	// `x - k` that depend on that parameter look like, in the callee and in whatever it hands the value on to?
+	var convsOf func(f *ssa.Function, i int, depth int, seen map[fp]bool) (clamped, bad int)
+	convsOf = func(f *ssa.Function, i int, depth int, seen map[fp]bool) (int, int) {
+		if f == nil || f.Blocks == nil || i >= len(f.Params) || depth > 3 || seen[fp{f, i}] {
+			return 0, 0
+		}
+		seen[fp{f, i}] = true
+		nc, nb := 0, 0
+		p := f.Params[i]
+		for _, b := range f.Blocks {
+			for _, ins := range b.Instrs {
+				switch x := ins.(type) {
+				case *ssa.Convert:
+					bt, ok := x.Type().Underlying().(*types.Basic)
+					if !ok || bt.Info()&types.IsUnsigned == 0 {
+						continue
+					}
+					if bin, ok := x.X.(*ssa.BinOp); !ok || bin.Op != token.SUB {
+						if _, isCall := x.X.(*ssa.Call); !isCall {
+							continue
+						}
+					}
+					if !backSlice(x.X)[ssa.Value(p)] {
+						continue
+					}
+					if clampedConv(x) {
+						nc++
+					} else {
+						nb++
+					}
+				case *ssa.Call:
+					cal := x.Common().StaticCallee()
+					if cal == nil || !inModule(cal) {
+						continue
+					}
+					for j, a := range x.Common().Args {
+						if backSlice(a)[ssa.Value(p)] {
+							c2, b2 := convsOf(cal, j, depth+1, seen)
+							nc, nb = nc+c2, nb+b2
+						}
+					}
+				}
+			}
+		}
+		return nc, nb
+	}
 	for _, f := range c.P.ModuleFuncs() {
 		for _, b := range f.Blocks {
 			for _, ins := range b.Instrs {
@@ -799,15 +846,21 @@ func ruleUnitClamp(c *Ctx) {
 					continue
 				}
 				cal := call.Common().StaticCallee()
-				if cal == nil {
+				if cal == nil || !inModule(cal) {
 					continue
 				}
 				for i, a := range call.Common().Args {
-					if _, bad := unclamped[fp{cal, i}]; bad && isLoadErrRange(backSlice(a)) {
-						n++
-						c.finding("U-CLAMP", funcName(f), "load-error position clamped at zero (via "+cal.Name()+")", call.Pos(),
-							"a LoadError's Range is passed to "+cal.Name()+", which converts `x - 1` to an unsigned protocol field without a clamp: load errors that are not tied to an include directive have a zero Range, which becomes line/character 4294967295 (outside the document)")
+					if !isLoadErrRange(backSlice(a)) {
+						continue
 					}
+					nc, nb := convsOf(cal, i, 0, map[fp]bool{})
+					if nc+nb == 0 {
+						continue
+					}
+					n++
+					c.check(nb == 0, "U-CLAMP", funcName(f), "load-error position clamped at zero (via "+cal.Name()+")", call.Pos(),
+						fmt.Sprintf("%d conversion(s) of the passed range to unsigned protocol fields, all clamped with max(0, x-1)", nc),
+						"a LoadError's Range is passed to "+cal.Name()+", which converts `x - 1` to an unsigned protocol field without a clamp: load errors that are not tied to an include directive have a zero Range, which becomes line/character 4294967295 (outside the document)")
 				}
 			}
 		}
